@@ -22,7 +22,42 @@ func FrozenCatalog() []Func {
 	if err := json.Unmarshal(frozenCatalog, &fs); err != nil {
 		panic("catalog_specs.json: " + err.Error())
 	}
-	return fs
+	return append(fs, chainSpecs(len(fs))...)
+}
+
+// chainSpecs: behind the frozen, seeded part of the catalogue comes one small
+// declared constructor for every ordered pair of distinct single keys,
+// func(a) (b[, error]). The seeded part is ranked (a constructor mostly
+// consumes types below the ones it produces), which bounds the length of a
+// dependency path among declared functions by the number of types; with these
+// links the deep-chain template can build paths of any length (every key once
+// per scope level). A pure function of nothing: no generator change renumbers it.
+func chainSpecs(base int) []Func {
+	var keys []Key
+	for t := 0; t < 6; t++ {
+		for _, n := range []string{"", "n1", "n2"} {
+			keys = append(keys, Key{T: t, Name: n})
+		}
+	}
+	var out []Func
+	for _, a := range keys {
+		for _, b := range keys {
+			if a == b {
+				continue
+			}
+			id := base + len(out)
+			p := Param{Kind: PSingle, T: a.T, Name: a.Name}
+			if a.Name != "" {
+				p = Param{Kind: PObj, Fields: []Param{p}}
+			}
+			r := Result{Kind: RSingle, T: b.T, Name: b.Name}
+			if b.Name != "" {
+				r = Result{Kind: RObj, Fields: []Result{r}}
+			}
+			out = append(out, Func{ID: id, Cat: id, Role: RoleCtor, Params: []Param{p}, Results: []Result{r}, HasErr: len(out)%3 != 2})
+		}
+	}
+	return out
 }
 
 // The catalogue: declared Go functions generated from seeded specs. They are
@@ -34,6 +69,7 @@ const (
 	catCtors = 360
 	catDecs  = 90
 	catInvs  = 150
+	catChain = 18 * 17 // chainSpecs, behind the three seeded ranges
 )
 
 // CatalogSpecs derives the catalogue's function specs from a seed.
